@@ -144,6 +144,26 @@ theorem C18_df_counterexample_no_rows :
     dfRows ⟨⟨[cvItem "A" "A", cvItem "B" "B"], false⟩, [["1".toList], ["2".toList, "3".toList]]⟩ = none := by
   decide
 
+/-- **zero rows** (every curve empty), or no column at all: `set_data` with an EMPTY array renames nothing and re-numbers
+nothing — the whole curve collection, stale suffixes included, is what it was (lasio `fix:` 17e170b; before it the code called
+`assign_duplicate_suffixes()` here too and `X1:3` became `X1:2`). -/
+theorem C18_df_roundtrip_empty (L : LasCurves) (rows : List (List Cell)) (names : Option (List Str))
+    (h : rows.length * cvRowsWidth rows = 0) :
+    L.setData rows names false = (L, .ok) := by
+  unfold LasCurves.setData setDataRows
+  simp [h]
+
+/-- the state of the sweep's failing input: DEPT, X1, X1, a, X1 with the second X1 deleted, no rows -/
+def exDfStale : LasCurves :=
+  (LasCurves.run ⟨⟨[], true⟩, []⟩
+    [.appendCurve "DEPT".toList [] [] [] [], .appendCurve "X1".toList [] [] [] [], .appendCurve "X1".toList [] [] [] [],
+     .appendCurve "a".toList [] [] [] [], .appendCurve "X1".toList [] [] [] [], .deleteIx 2])
+
+example : dfNames exDfStale = ["DEPT".toList, "X1:1".toList, "a".toList, "X1:3".toList] ∧ dfRows exDfStale = some [] ∧
+    (exDfStale.setData [] (some (dfNames exDfStale)) false).1.sec.keys
+      = ["DEPT".toList, "X1:1".toList, "a".toList, "X1:3".toList] := by
+  decide
+
 /-! ## non-vacuity -/
 
 /-- the curves of a file with the lines DEPT, GR, GR (as `read` builds them: appended one by one, transforms on) -/
@@ -192,6 +212,7 @@ example : Inv exDf.sec ∧ Distinct exDf.sec ∧
 #print axioms C18_df_counterexample_case_duplicates
 #print axioms C18_df_counterexample_blank_session
 #print axioms C18_df_counterexample_no_rows
+#print axioms C18_df_roundtrip_empty
 #print axioms setData_df
 
 end Lasio
